@@ -89,6 +89,15 @@ def _walk(state, items, flags, prefix, out):
                         u = sample(state, body, flags, pref)
                         if u and u not in units:
                             units.append(u)
+                    # a body that is a choice: every alternative is a unit of its own (the ambiguous one need not be the first)
+                    inner = list(body)
+                    while len(inner) == 1 and inner[0][0] is _c.SUBPATTERN:
+                        inner = list(inner[0][1][3])
+                    if len(inner) == 1 and inner[0][0] is _c.BRANCH:
+                        for alt in inner[0][1][1][:6]:
+                            u = sample(state, alt, flags, 'a')
+                            if u and u not in units:
+                                units.append(u)
                     if not units:
                         # every item of the body is optional: pump each accepted single character
                         acc = _accepts(state, list(body), flags) or []
@@ -139,6 +148,59 @@ def load_sites(path):
         if isinstance(v, dict) and 'pattern' in v:
             res.append((key, v['pattern'], int(v.get('flags', 0))))
     return res
+
+
+_DYNAMIC = r'''
+import json, re, sys
+seen = {}
+def _wrap(name):
+    orig = getattr(re, name)
+    def w(*a, **k):
+        try:
+            p = a[0] if a else k.get('pattern')
+            fl = k.get('flags', 0)
+            if name == 'compile' and len(a) > 1:
+                fl = a[1]
+            if isinstance(p, str):
+                seen[(p, int(fl))] = 1
+        except Exception:
+            pass
+        return orig(*a, **k)
+    return w
+for _n in ('compile', 'search', 'match', 'fullmatch', 'sub', 'subn', 'split', 'findall', 'finditer'):
+    setattr(re, _n, _wrap(_n))
+sys.path.insert(0, sys.argv[1])
+import rimu
+docs = json.loads(sys.stdin.read())
+for mode in (0, 1, 15):
+    for d in docs:
+        try:
+            rimu.render(d, rimu.RenderOptions(safeMode=mode, reset=True))
+        except BaseException:
+            pass
+print(json.dumps([[p, f] for (p, f) in seen]))
+'''
+
+
+def dynamic_sites(repo, docs):
+    """Patterns the implementation actually hands to `re` while it is imported and renders `docs` (every entry point of `re`
+    is wrapped in a child process): finds patterns that are composed at run time or kept where the translator does not look.
+    Returns [(key, pattern, flags)]."""
+    import subprocess
+    import sys
+    import zlib
+    try:
+        p = subprocess.run([sys.executable, '-c', _DYNAMIC, os.path.join(repo, 'src')], input=json.dumps(docs), stdout=subprocess.PIPE,
+                           stderr=subprocess.DEVNULL, text=True, timeout=120)
+        rows = json.loads(p.stdout.strip().splitlines()[-1])
+    except Exception:   # noqa
+        return []
+    out = []
+    for pat, fl in rows:
+        if len(pat) > 2000:
+            continue
+        out.append(('dyn:%08x' % (zlib.crc32(pat.encode('utf-8', 'replace')) & 0xffffffff), pat, int(fl)))
+    return sorted(out)
 
 
 def pool(sites):
